@@ -692,7 +692,7 @@ Definition recv_ack (g : cfg) (c : conn) (v : version) (t : N) (pr : presult) : 
     else if t =? T_PUBREC then
       if mem id (c_pubrec c) then
         let c := store_erase (set_pubrec c (del id (c_pubrec c))) v T_PUBREC id in
-        let success := negb v5 || negb (k_rc_present p) || (k_rc p =? 0) in
+        let success := negb v5 || negb (k_rc_present p) || (k_rc p <? 128) in   (* PubrecReasonCode::is_success: 0x00, 0x10 *)
         if success then
           bindr (if c_auto_pub c && status_eqb (c_status c) Connected
                  then send_pubrel c (ack_pkt g T_PUBREL v id None) else Ok (c, [])) (fun '(c, e1) => fin c e1)
